@@ -53,6 +53,12 @@ PROPS['C16'] = dict(
           'each, on conditional spaces up to depth 3; contains() on a conditional space raises NotImplementedError'),
         O('C16.space_membership', 'harness.c16_validation', 'space_membership', 90, 300,
           'SearchSpace.contains: every parameter present once, in domain, nothing else'),
+        O('C16.traversal_bool_parent', 'harness.c16_validation', 'traversal_bool_parent', 60, 300,
+          'a boolean parent whose child was attached with either spelling (True / "True") is walked correctly with either '
+          'spelling of the chosen value'),
+        O('C16.client_add_trial_conditional', 'harness.c16_validation', 'client_add_trial_conditional', 60, 300,
+          'add_trial on a conditional study never accepts a trial with an unknown key, an inactive child, an out-of-range '
+          'child or an infeasible parent value (refusing the study as unsupported is allowed)'),
         O('C16.client_add_trial', 'harness.c16_validation', 'client_add_trial', 90, 300,
           'clients.Study.add_trial refuses (and does not store) out-of-space trials, also after the study was deleted and '
           're-created under the same name with another space'),
